@@ -52,6 +52,7 @@ main (int argc, char **argv)
 	{
 	    if (fscanf (in, "%127s", name) != 1) return 3;
 	    vf_disarm ();
+	    vf_nalloc = 0;
 	    me16reset (first);
 	    me32reset (first);
 	    first = 0;
@@ -88,6 +89,7 @@ main (int argc, char **argv)
 			(e->x1 < -32768 || e->y1 < -32768 || e->x2 > 32767 || e->y2 > 32767))
 			continue;
 		}
+		vf_begin ();
 		if (!strcmp (op, "conv"))
 		{
 		    /* d and a are in different pools */
@@ -100,6 +102,7 @@ main (int argc, char **argv)
 		    ret = me16op (op, d, a, b, vals, nv);
 		else
 		    ret = me32op (op, d, a, b, vals, nv);
+		vf_end ();
 		vt_begin ("Op");
 		vt_int ("w", w); vt_str ("op", op); vt_int ("d", d); vt_int ("a", a); vt_int ("b", b);
 		if (!strcmp (op, "translate")) { vt_int ("dx", vals[0]); vt_int ("dy", vals[1]); }
@@ -127,6 +130,7 @@ main (int argc, char **argv)
 		    vt_ints ("box", vals, 4);
 		vt_bool ("ret", ret);
 		vt_int ("nfail", vf_nfail - f0);
+		vt_int ("na", vf_nalloc);
 		log_all ();
 		vt_end ();
 	    }
